@@ -5,7 +5,7 @@
    instance the correspondence check evaluates: Pregel and DAG channels of Model/Graph.v). *)
 From Eino Require Import Base.Util Model.Graph Model.RunLoop Model.Interrupt Model.IntrObs
      Proofs.DagInv Proofs.InterruptChanDagSkip Proofs.RunLoopSusp Proofs.InterruptNested Proofs.InterruptNestedDag
-     Proofs.RunLoop Proofs.RunLoopRerun Proofs.Interrupt Proofs.InterruptRerun Proofs.InterruptWitness
+     Proofs.RunLoop Proofs.RunLoopRerun Proofs.Interrupt Proofs.InterruptRerun Proofs.InterruptRerunProgress Proofs.InterruptWitness
      Proofs.RunLoopEagerSerial Proofs.InterruptEagerSerial
      Model.CheckpointStreamLib Model.CheckpointStream Proofs.CheckpointStream.
 From Coq Require Import Permutation.
@@ -207,6 +207,56 @@ Section GenericRerun.
              H_fold_inv H_getr_inv H_fold_nil H_getr_idem H_getr_nodup H_fold_app H_fold_prefix H_fold_perm
              GOK H_pre_ok H_rebuild ser deser Hser).
   Qed.
+
+  (* PROGRESS (round 5). The environment carries a BUDGET of aborted attempts: an attempt that asks for a rerun uses
+     up at least one unit, a completed one none. Every call of the driven run executes at least one node (a resumed
+     call starts from pending tasks); a completed execution is an execution of the uninterrupted run, counted once.
+     So a driven run whose last call is still interrupted has made at most
+         (number of executions of the uninterrupted run) + (budget)
+     further calls — and with more calls than that it completes, with the output and the executions of the
+     uninterrupted run (total correctness of the run with rerun nodes). *)
+  Variable budget : ENV -> nat.
+  Hypothesis H_budget : forall k cp v e r e', execR k cp v e = (r, e') ->
+    (budget e' + (if is_rerun r then 1 else 0) <= budget e)%nat.
+
+  Theorem rerun_progress : forall {B : Type} (ser : @checkpoint V CS GS SCP -> B) deser,
+    (forall c, deser (ser c) = Some c) ->
+    forall fuelR cs0 gs0 x fuelU vU lU n env cos env' cos' co,
+      Inv cs0 -> GOK gs0 ->
+      start zero fold getr pre (execU (SCP := SCP) (SINFO := SINFO) body) [] [] fuelU cs0 gs0 x tt = (ODone vU, lU, tt) ->
+      (fuelU <= fuelR)%nat ->
+      drive ser deser (start zero fold getr pre execR before after fuelR cs0 gs0 x)
+            (resume zero fold getr pre execR before after fuelR)
+            (fun _ e => e) true n 0 (fun _ g => g) None env = (cos, env') ->
+      cos = cos' ++ [co] ->
+      is_interrupt (co_out co) ->
+      (n <= List.length lU + budget env)%nat.
+  Proof.
+    intros B ser deser Hser fuelR cs0 gs0 x.
+    exact (rerun_progress_l zero fold getr pre body rerunnable execR before after H_execR Inv
+             H_fold_inv H_getr_inv H_fold_nil H_getr_idem H_getr_nodup H_fold_app H_fold_prefix H_fold_perm
+             GOK H_pre_ok H_rebuild ser deser Hser fuelR cs0 gs0 x budget H_budget).
+  Qed.
+
+  Theorem rerun_total : forall {B : Type} (ser : @checkpoint V CS GS SCP -> B) deser,
+    (forall c, deser (ser c) = Some c) ->
+    forall fuelR cs0 gs0 x fuelU vU lU n env cos env' cos' co,
+      Inv cs0 -> GOK gs0 ->
+      start zero fold getr pre (execU (SCP := SCP) (SINFO := SINFO) body) [] [] fuelU cs0 gs0 x tt = (ODone vU, lU, tt) ->
+      (fuelU <= fuelR)%nat ->
+      drive ser deser (start zero fold getr pre execR before after fuelR cs0 gs0 x)
+            (resume zero fold getr pre execR before after fuelR)
+            (fun _ e => e) true n 0 (fun _ g => g) None env = (cos, env') ->
+      cos = cos' ++ [co] ->
+      (List.length lU + budget env < n)%nat ->
+      co_out co = ODone vU /\ Permutation (good (all_logs cos)) lU.
+  Proof.
+    intros B ser deser Hser fuelR cs0 gs0 x fuelU vU lU n env cos env' cos' co Hi Hg HU Hle Hd Hcos Hn.
+    destruct (rerun_equiv ser deser Hser fuelR cs0 gs0 x fuelU vU lU n env cos env' cos' co Hi Hg HU Hle Hd Hcos)
+      as [Hint|Hdone]; [|exact Hdone].
+    pose proof (rerun_progress ser deser Hser fuelR cs0 gs0 x fuelU vU lU n env cos env' cos' co Hi Hg HU Hle Hd Hcos Hint).
+    lia.
+  Qed.
 End GenericRerun.
 
 (* The same for the model the correspondence evaluates: a flat Graph in any-predecessor mode (Pregel
@@ -229,6 +279,51 @@ Theorem rerun_equiv_flat_pregel :
     is_interrupt (co_out co) \/
     (co_out co = ODone vU /\ Permutation (good (all_logs cos)) lU).
 Proof. exact rerun_equiv_model_l. Qed.
+
+(* PROGRESS for the model (round 5): the budget is what the rerun tables still hold — for every node the listed
+   attempt numbers greater than the number of its executions so far ([mbudget]); a run of the model that is still
+   interrupted after its last call has made at most (executions of the uninterrupted run) + (that budget) further
+   calls, and with more calls it completes like the uninterrupted run *)
+Theorem rerun_progress_flat_pregel :
+  forall (g : gspec), rerun_ok g ->
+  forall gi x e n fuelU cs0 vU lU cos e' cos' co,
+    g_mode (gs_graph g) = Pregel -> g_eager (gs_graph g) = false ->
+    init_chans value (gs_graph g) = Ok cs0 ->
+    start VNil (ifold (gs_graph g)) (igetr (gs_graph g)) (pre_fn g)
+          (execU (SCP := ncp) (SINFO := ninfo) (lam_body g)) [] [] fuelU cs0 (gs0 g) x tt = (ODone vU, lU, tt) ->
+    (fuelU <= seg_fuel (gs_graph g))%nat ->
+    drive (fun c : cpt => c) (fun c => Some c) (seg_fresh (lam_ex g) gi g x) (seg_resumed (lam_ex g) gi g)
+          (fun _ e => e) true n 0 (fun _ s => s) None e = (cos, e') ->
+    cos = cos' ++ [co] ->
+    is_interrupt (co_out co) ->
+    (n <= List.length lU + mbudget g e)%nat.
+Proof. exact rerun_progress_model_l. Qed.
+
+Theorem rerun_total_flat_pregel :
+  forall (g : gspec), rerun_ok g ->
+  forall gi x e n fuelU cs0 vU lU cos e' cos' co,
+    g_mode (gs_graph g) = Pregel -> g_eager (gs_graph g) = false ->
+    init_chans value (gs_graph g) = Ok cs0 ->
+    start VNil (ifold (gs_graph g)) (igetr (gs_graph g)) (pre_fn g)
+          (execU (SCP := ncp) (SINFO := ninfo) (lam_body g)) [] [] fuelU cs0 (gs0 g) x tt = (ODone vU, lU, tt) ->
+    (fuelU <= seg_fuel (gs_graph g))%nat ->
+    drive (fun c : cpt => c) (fun c => Some c) (seg_fresh (lam_ex g) gi g x) (seg_resumed (lam_ex g) gi g)
+          (fun _ e => e) true n 0 (fun _ s => s) None e = (cos, e') ->
+    cos = cos' ++ [co] ->
+    (List.length lU + mbudget g e < n)%nat ->
+    co_out co = ODone vU /\ Permutation (good (all_logs cos)) lU.
+Proof.
+  intros g Hok gi x e n fuelU cs0 vU lU cos e' cos' co Hm He Hi HU Hle Hd Hcos Hn.
+  destruct (rerun_equiv_flat_pregel g Hok gi x e n fuelU cs0 vU lU cos e' cos' co Hm He Hi HU Hle Hd Hcos)
+    as [Hint|Hdone]; [|exact Hdone].
+  pose proof (rerun_progress_flat_pregel g Hok gi x e n fuelU cs0 vU lU cos e' cos' co Hm He Hi HU Hle Hd Hcos Hint).
+  lia.
+Qed.
+
+(* non-vacuity of the bound: the witness below has 2 executions and a budget of 3 (node 2: attempts 1, 2; node 3:
+   attempt 1); it is driven with 6 further calls (> 2 + 3) and completes on the fourth call *)
+Example rerun_total_flat_pregel_bound_holds : mbudget w_rerun (env0 []) = 3%nat.
+Proof. vm_compute. reflexivity. Qed.
 
 (* non-vacuity: node 2 aborts its first two attempts, node 3 its first (interrupt-after 3 configured):
    the hypotheses hold, the run takes three interrupted calls and completes on the fourth *)
@@ -554,6 +649,11 @@ Print Assumptions resume_equiv_eager_v0_refuted.
 Print Assumptions rerun_equiv.
 Print Assumptions rerun_equiv_flat_pregel.
 Print Assumptions rerun_equiv_flat_pregel_hypotheses_hold.
+Print Assumptions rerun_progress.
+Print Assumptions rerun_total.
+Print Assumptions rerun_progress_flat_pregel.
+Print Assumptions rerun_total_flat_pregel.
+Print Assumptions rerun_total_flat_pregel_bound_holds.
 Print Assumptions susp_equiv.
 Print Assumptions resume_equiv_nested.
 Print Assumptions resume_equiv_nested_hypotheses_hold.
